@@ -363,6 +363,19 @@ impl Context {
 
             parent = task.parent();
         }
+
+        // the whole process is aborted: nothing stays open in the other branches
+        for t in self.proc.tasks() {
+            if t.state().is_completed() {
+                continue;
+            }
+            if t.state().is_pending() || t.state().is_none() {
+                t.set_state(TaskState::Skipped);
+            } else {
+                t.set_state(TaskState::Aborted);
+            }
+            ctx.emit_task(&t)?;
+        }
         Ok(())
     }
 
